@@ -229,46 +229,75 @@ func (env *Env) c13Tcb(e *flow.Engine) {
 	elems := param(fn, 0)
 	tcb := param(fn, 1)
 	g := e.GraphOf(fn, e.Root(fn))
-	// component store: tcbComponents[i] = val
-	var compStore *ssa.Store
-	// the store may sit in the function itself or in a helper that holds the
-	// component loop
-	var blocks []*ssa.BasicBlock
-	for _, f := range inPackages(env.calleesBelow(fn), "pcs") {
-		blocks = append(blocks, f.Blocks...)
+	u16 := env.fn("pcs", "asn1U16")
+	u8 := env.fn("pcs", "asn1U8")
+	// every instruction on the inlined call tree below the function, on its
+	// call string: stores and range-check calls may sit in the function itself,
+	// in a helper, or in a method of a small type carrying the walk's state
+	type site struct {
+		in ssa.Instruction
+		fr flow.Frame
 	}
-	ctxOf := func(f *ssa.Function) *flow.Ctx {
-		if f == fn {
-			return e.Root(fn)
+	var comp, cpu, cs, u8c, u16c []site
+	var frames []flow.Frame
+	seenFr := map[string]bool{}
+	seenIn := map[ssa.Instruction]bool{}
+	add := func(l *[]site, in ssa.Instruction, fr flow.Frame) {
+		if !seenIn[in] {
+			seenIn[in] = true
+			*l = append(*l, site{in, fr})
 		}
-		return e.UnknownCtx(f)
 	}
-	for _, b := range blocks {
-		for _, in := range b.Instrs {
-			if st, ok := in.(*ssa.Store); ok {
-				if ia, ok := st.Addr.(*ssa.IndexAddr); ok {
-					ixt := flow.StripConv(e.Eval(ia.Index, ctxOf(st.Parent())))
-					viaHelper := ixt.Contains(func(x *flow.Term) bool { return x.Op == flow.OpIter })
-					if _, isSlice := ia.X.Type().Underlying().(*types.Slice); isSlice && (ixt.Op == flow.OpIter || viaHelper) {
-						if compStore == nil {
-							compStore = st
-						} else if compStore != st {
-							r.Fail("C13/TCB", "component-single-store", env.P.Pos(st.Pos()), "the component vector must be written at exactly one site")
-						}
+	e.Walk(fn, false, func(in ssa.Instruction, fr flow.Frame) {
+		if k := fmt.Sprintf("%p/%p", fr.Fn, fr.Ctx); !seenFr[k] {
+			seenFr[k] = true
+			frames = append(frames, fr)
+		}
+		switch x := in.(type) {
+		case *ssa.Store:
+			switch a := x.Addr.(type) {
+			case *ssa.IndexAddr:
+				ixt := flow.StripConv(e.Eval(a.Index, fr.Ctx))
+				if _, isSlice := a.X.Type().Underlying().(*types.Slice); isSlice && ixt.Contains(func(t *flow.Term) bool { return t.Op == flow.OpIter }) {
+					add(&comp, in, fr)
+				}
+			case *ssa.FieldAddr:
+				if k, ok := load.FieldKeyOf(a.X.Type(), a.Field); ok && strings.HasSuffix(k.Type, "/pcs.PckCertTCB") {
+					switch k.Field {
+					case "CPUSvn":
+						add(&cpu, in, fr)
+					case "CPUSvnComponents":
+						add(&cs, in, fr)
 					}
 				}
 			}
+		case *ssa.Call:
+			switch cal := x.Call.StaticCallee(); {
+			case cal != nil && cal == u8:
+				add(&u8c, in, fr)
+			case cal != nil && cal == u16:
+				add(&u16c, in, fr)
+			}
+		}
+	})
+	// component store: tcbComponents[i] = val
+	var compStore *ssa.Store
+	var compFr flow.Frame
+	for i, c := range comp {
+		if i == 0 {
+			compStore, compFr = c.in.(*ssa.Store), c.fr
+		} else {
+			r.Fail("C13/TCB", "component-single-store", env.P.Pos(c.in.Pos()), "the component vector must be written at exactly one site")
 		}
 	}
 	if compStore == nil {
 		r.Fail("C13/TCB", "component-store", where, "no store into the component SVN vector found")
 	} else {
 		ia := compStore.Addr.(*ssa.IndexAddr)
-		sfn := compStore.Parent()
-		idx := e.Eval(ia.Index, ctxOf(sfn))
+		idx := e.Eval(ia.Index, compFr.Ctx)
 		var inner string
 		isIter := iterFrom(pat.Const("0"), &inner)(idx, pat.Bind{})
-		if !isIter && sfn == fn {
+		if !isIter && compFr.Fn == fn {
 			// the index comes out of a lookup helper (`i, found := indexOf(oid)`): decide
 			// on the alternatives that reach the store, where the helper's exit is definite
 			env.c13TcbViaHelper(e, fn, compStore, elems, g)
@@ -282,28 +311,27 @@ func (env *Env) c13Tcb(e *flow.Engine) {
 			})
 		})))
 		guard := pat.Call("(encoding/asn1.ObjectIdentifier).Equal", pat.Any(), oidM)
-		okGuard := env.guardHas(e, sfn, compStore.Block(), guard)
+		okGuard := env.guardHasFr(e, compFr, compStore.Block(), guard)
 		// inner loop bound 16, outer loop over all elements
 		okBound := false
 		okOuter := false
-		for _, lf := range []*ssa.Function{sfn, fn} {
-			lg := e.GraphOf(lf, ctxOf(lf))
+		for _, lf := range frames {
+			lg := e.GraphOf(lf.Fn, lf.Ctx)
 			for _, l := range lg.Loops {
-				head := lf.Blocks[l.Head]
+				head := lf.Fn.Blocks[l.Head]
 				iff, ok := head.Instrs[len(head.Instrs)-1].(*ssa.If)
 				if !ok {
 					continue
 				}
-				dom := e.Eval(iff.Cond, ctxOf(lf))
-				if lf == sfn && l.ID == inner && pat.Bin("<", iterFrom(pat.Const("0"), nil), pat.Const(env.repoConst("pcs", "tcbComponentSize")))(dom, pat.Bind{}) {
+				dom := e.Eval(iff.Cond, lf.Ctx)
+				if l.ID == inner && pat.Bin("<", iterFrom(pat.Const("0"), nil), pat.Const(env.repoConst("pcs", "tcbComponentSize")))(dom, pat.Bind{}) {
 					okBound = true
 				}
-				if lf == fn && pat.Bin("<", iterFrom(pat.Const("0"), nil), pat.Len(pat.Is(elems)))(dom, pat.Bind{}) {
+				if pat.Bin("<", iterFrom(pat.Const("0"), nil), pat.Len(pat.Is(elems)))(dom, pat.Bind{}) {
 					okOuter = true
 				}
 			}
 		}
-		_ = g
 		if isIter && okGuard && okBound && okOuter {
 			r.OK("C13/TCB", "component-index", env.P.Pos(compStore.Pos()), "component i stored at index i under Equal(OID, prefix||i+1); i runs over 0..15 for every element; every element visited")
 		} else {
@@ -312,8 +340,6 @@ func (env *Env) c13Tcb(e *flow.Engine) {
 	}
 rest:
 	// PCESvn store through asn1U16; CPUSvn store
-	u16 := env.fn("pcs", "asn1U16")
-	u8 := env.fn("pcs", "asn1U8")
 	for _, c := range []struct {
 		fn   *ssa.Function
 		name string
@@ -352,68 +378,86 @@ rest:
 	}
 	// PCESvn / CPUSvn selection
 	typeOfElem := pat.Field(pat.Call("decode:encoding/asn1.Unmarshal", pat.Any()), "Type")
-	for _, b := range fn.Blocks {
-		for _, in := range b.Instrs {
-			if c, ok := in.(*ssa.Call); ok && c.Call.StaticCallee() == u16 && u16 != nil {
-				out := e.Eval(c.Call.Args[2], e.Root(fn))
-				okOut := out.Op == flow.OpAddr && flow.Eq(out.Args[0], fieldT(tcb, "PCESvn"))
-				okGuard := env.guardHas(e, fn, c.Block(), pat.Call("(encoding/asn1.ObjectIdentifier).Equal", typeOfElem, pat.Global("pcs.OidPCESvn")))
-				if okOut && okGuard {
-					r.OK("C13/TCB", "PCESvn", env.P.Pos(c.Pos()), "tcb.PCESvn assigned under Equal(OID, pcs.OidPCESvn) through the 16-bit range check")
-				} else {
-					r.Fail("C13/TCB", "PCESvn", env.P.Pos(c.Pos()), fmt.Sprintf("PCESVN must go to tcb.PCESvn (%v) under Equal(element OID, pcs.OidPCESvn) (%v)", okOut, okGuard))
-				}
-			}
-		}
-	}
-	var cpu []*ssa.Store
-	for _, s := range env.storesTo("pcs.PckCertTCB", "CPUSvn") {
-		if s.Parent() == fn {
-			cpu = append(cpu, s)
+	for _, sc := range u16c {
+		c := sc.in.(*ssa.Call)
+		out := e.Eval(c.Call.Args[2], sc.fr.Ctx)
+		okOut := out.Op == flow.OpAddr && flow.Eq(out.Args[0], fieldT(tcb, "PCESvn"))
+		okGuard := env.guardHasFr(e, sc.fr, c.Block(), pat.Call("(encoding/asn1.ObjectIdentifier).Equal", typeOfElem, pat.Global("pcs.OidPCESvn")))
+		if okOut && okGuard {
+			r.OK("C13/TCB", "PCESvn", env.P.Pos(c.Pos()), "tcb.PCESvn assigned under Equal(OID, pcs.OidPCESvn) through the 16-bit range check")
+		} else {
+			r.Fail("C13/TCB", "PCESvn", env.P.Pos(c.Pos()), fmt.Sprintf("PCESVN must go to tcb.PCESvn (%v) under Equal(element OID, pcs.OidPCESvn) (%v)", okOut, okGuard))
 		}
 	}
 	if len(cpu) == 1 {
-		st := cpu[0]
+		st := cpu[0].in.(*ssa.Store)
+		sfr := cpu[0].fr
 		val := pat.Field(pat.Call("decode:encoding/asn1.Unmarshal", pat.Any()), "Value")
-		okGuard := env.guardHas(e, fn, st.Block(), pat.Call("(encoding/asn1.ObjectIdentifier).Equal", typeOfElem, pat.Global("pcs.OidCPUSvn")))
-		okType := env.guardHas(e, fn, st.Block(), pat.Res("1", pat.Op(flow.OpAssert, "[]byte,ok", val)))
-		okLen := env.guardHas(e, fn, st.Block(), pat.Bin("==", pat.Len(val), pat.Const(env.repoConst("pcs", "cpuSvnSize"))))
-		if okGuard && okType && okLen {
+		okGuard := env.guardHasFr(e, sfr, st.Block(), pat.Call("(encoding/asn1.ObjectIdentifier).Equal", typeOfElem, pat.Global("pcs.OidCPUSvn")))
+		okType := env.guardHasFr(e, sfr, st.Block(), pat.Res("1", pat.Op(flow.OpAssert, "[]byte,ok", val)))
+		okLen := env.guardHasFr(e, sfr, st.Block(), pat.Bin("==", pat.Len(val), pat.Const(env.repoConst("pcs", "cpuSvnSize"))))
+		okDst := flow.Eq(flow.StripConv(e.Eval(st.Addr.(*ssa.FieldAddr).X, sfr.Ctx)), tcb)
+		if okGuard && okType && okLen && okDst {
 			r.OK("C13/TCB", "CPUSvn", env.P.Pos(st.Pos()), "tcb.CPUSvn assigned under Equal(OID, pcs.OidCPUSvn), comma-ok []byte, length 16")
 		} else {
-			r.Fail("C13/TCB", "CPUSvn", env.P.Pos(st.Pos()), fmt.Sprintf("CPUSVN must be assigned under Equal(element OID, pcs.OidCPUSvn) (%v) after a comma-ok []byte assertion (%v) and a length == 16 check (%v)", okGuard, okType, okLen))
+			r.Fail("C13/TCB", "CPUSvn", env.P.Pos(st.Pos()), fmt.Sprintf("CPUSVN must be assigned to the result's CPUSvn (%v) under Equal(element OID, pcs.OidCPUSvn) (%v) after a comma-ok []byte assertion (%v) and a length == 16 check (%v)", okDst, okGuard, okType, okLen))
 		}
 	} else {
 		r.Fail("C13/TCB", "CPUSvn", where, fmt.Sprintf("tcb.CPUSvn must have exactly one store (found %d)", len(cpu)))
 	}
 	// the component value comes from asn1U8 on the same element
 	if compStore != nil && u8 != nil {
-		v := e.Eval(compStore.Val, e.Root(fn))
-		_ = v
-		n := 0
-		for _, c := range env.P.Callers[u8] {
-			if c.Parent() == fn {
-				n++
-			}
-		}
-		if n == 1 {
+		if len(u8c) == 1 {
 			r.OK("C13/TCB", "component-range-checked", env.P.Pos(compStore.Pos()), "component value obtained through asn1U8")
 		} else {
 			r.Fail("C13/TCB", "component-range-checked", env.P.Pos(compStore.Pos()), "each component SVN must pass the 8-bit range check (asn1U8) exactly once")
 		}
 	}
 	// CPUSvnComponents = the filled vector
-	var cs []*ssa.Store
-	for _, s := range env.storesTo("pcs.PckCertTCB", "CPUSvnComponents") {
-		if s.Parent() == fn {
-			cs = append(cs, s)
-		}
+	okVec := false
+	if len(cs) == 1 && compStore != nil {
+		st := cs[0].in.(*ssa.Store)
+		vecX := compStore.Addr.(*ssa.IndexAddr).X
+		okVec = st.Val == vecX || flow.Eq(flow.StripConv(e.Eval(st.Val, cs[0].fr.Ctx)), flow.StripConv(e.Eval(vecX, compFr.Ctx)))
 	}
-	if len(cs) == 1 && compStore != nil && cs[0].Val == compStore.Addr.(*ssa.IndexAddr).X {
-		r.OK("C13/TCB", "components-result", env.P.Pos(cs[0].Pos()), "tcb.CPUSvnComponents = the vector the component loop fills")
+	if okVec {
+		r.OK("C13/TCB", "components-result", env.P.Pos(cs[0].in.Pos()), "tcb.CPUSvnComponents = the vector the component loop fills")
 	} else {
 		r.Fail("C13/TCB", "components-result", where, "tcb.CPUSvnComponents must be the vector filled by the component loop")
 	}
+}
+
+// guardHasFr is guardHas for an instruction on an inlined call tree: the
+// gate may be tested in the instruction's own frame or, for a helper, before
+// the call in any enclosing frame.
+func (env *Env) guardHasFr(e *flow.Engine, fr flow.Frame, b *ssa.BasicBlock, m pat.M) bool {
+	at := func(fn *ssa.Function, ctx *flow.Ctx, blk int) bool {
+		alts := e.GatesAt(fn, ctx, blk)
+		if len(alts) == 0 {
+			return false
+		}
+		for _, a := range alts {
+			found := false
+			for _, g := range a.Gates {
+				if g.Pred != nil && m(g.Pred, pat.Bind{}) {
+					found = true
+				}
+			}
+			if !found {
+				return false
+			}
+		}
+		return true
+	}
+	if at(fr.Fn, fr.Ctx, b.Index) {
+		return true
+	}
+	for c := fr.Ctx; c != nil && c.Parent != nil && c.Call != nil; c = c.Parent {
+		if at(c.Call.Parent(), c.Parent, c.Call.Block().Index) {
+			return true
+		}
+	}
+	return false
 }
 
 // c13Structure: the fixed sequence sizes.
